@@ -9,6 +9,7 @@ import (
 	"go/types"
 	"os"
 	"path/filepath"
+	"regexp"
 	"sort"
 	"strings"
 	"sync"
@@ -424,7 +425,59 @@ func (eng *Engine) newTop(fn *ssa.Function, c *Contract) *fnCtx {
 		params: map[string]Val{}, externsUsed: map[string]bool{}, tablesUsed: map[string]bool{}, inlinedFns: map[string]bool{}, calleeUsed: map[string]bool{},
 		callOrd: map[string]int{}, storeOrd: map[*ssa.Alloc]int{}, framedBases: map[string]bool{}, boundCalls: map[int]bool{}, boundAfters: map[int]bool{}, heapElemTy: map[string]types.Type{}}
 	fc.top = fc
+	fc.countCalls = countedCallees(c, callsRe, false)
+	fc.wantResults = countedCallees(c, callResultRe, true)
+	fc.callResults = map[string]Val{}
 	return fc
+}
+
+var callsRe = regexp.MustCompile(`\bcalls\(([A-Za-z_][A-Za-z0-9_$]*)\)`)
+
+var callResultRe = regexp.MustCompile(`\bcallresult\(([A-Za-z_][A-Za-z0-9_$]*)\s*,\s*([0-9]+)\)`)
+
+// countedCallees: the callee names a contract mentions in calls(f) terms (a ghost counter is kept for these
+// only), or the "f#k" keys of its callresult(f, k) terms
+func countedCallees(c *Contract, callsRe *regexp.Regexp, withK bool) map[string]bool {
+	out := map[string]bool{}
+	if c == nil {
+		return out
+	}
+	add := func(cl Clause) {
+		for _, m := range callsRe.FindAllStringSubmatch(cl.Text, -1) {
+			if withK {
+				out[m[1]+"#"+m[2]] = true
+			} else {
+				out[m[1]] = true
+			}
+		}
+	}
+	for _, cl := range c.Ensures {
+		add(cl)
+	}
+	for _, cl := range c.Shows {
+		add(cl)
+	}
+	for _, r := range c.Returns {
+		add(r.Assert)
+	}
+	for _, cs := range c.Calls {
+		add(cs.Assert)
+	}
+	for _, a := range c.Afters {
+		add(a.Assert)
+	}
+	for _, l := range c.Loops {
+		for _, cl := range l.Invariants {
+			add(cl)
+		}
+		for _, cl := range l.Steps {
+			add(cl)
+		}
+		for _, cl := range l.Exits {
+			add(cl)
+		}
+	}
+	return out
 }
 
 func (eng *Engine) verifyFunction(tg target) *funcResult {
